@@ -4,6 +4,7 @@ import (
 	"fmt"
 	"hash/fnv"
 	"runtime"
+	"strconv"
 	"strings"
 	"sync"
 	"testing"
@@ -84,7 +85,7 @@ func c20Data() dm.Tree {
 
 func c20RunOps(mm *meta.Module, ops []c20Op) []string {
 	root := c20Module().Root()
-	store, _ := dm.NewStore("rs", root, c20Data())
+	store, _ := dm.NewStore("rs-lenient", root, c20Data())
 	var out []string
 	add := func(s string, err error) {
 		if err != nil {
@@ -176,6 +177,18 @@ func c20RunOps(mm *meta.Module, ops []c20Op) []string {
 			}
 		case "json":
 			add(nodeutil.WriteJSON(b.Root()))
+		case "json-broken-stream":
+			// a client that hangs up in the middle of a long string: a tree of its own, written to a stream that fails
+			// after op.Arg bytes; nobody else's output has anything to do with it
+			own, _ := dm.NewStore("rs-lenient", root, dm.Tree{"c": dm.Tree{"s": strings.Repeat("long-", 1400), "i": "1"}})
+			limit, _ := strconv.Atoi(op.Arg)
+			w := &nodeutil.JSONWtr{Out: &failingWriter{limit: limit}}
+			err := node.NewBrowser(mm, own.Node()).Root().InsertInto(w.Node())
+			if err == nil {
+				add("", fmt.Errorf("the broken stream took everything"))
+			} else {
+				add("broken stream reported", nil)
+			}
 		case "json-node":
 			// the same data held by a slice-backed nodeutil.Node (its own case detection and key lookup)
 			ns, err := dm.NewStore("node-slice", root, c20Data())
@@ -251,6 +264,31 @@ func c20Run(c c20Case, o *hx.Obs) {
 	for i, w := range c.Workers {
 		want[i] = c20RunOps(alone, w)
 	}
+	// the long string of a broken-stream operation belongs to a tree of its own: it shows in nobody's results
+	foreign := func(results [][]string, when string) bool {
+		for i, rs := range results {
+			for j, r := range rs {
+				if strings.Contains(r, "long-long-") {
+					o.Failf("divergence|foreign-data", "worker %d, operation %d (%s) %s: its result holds data of the tree another operation wrote to a broken stream: %.120s...", i, j, c.Workers[i][j].Kind, when, r)
+					return true
+				}
+			}
+		}
+		return false
+	}
+	if foreign(want, "run alone") {
+		return
+	}
+	// the whole-tree reads of the unchanged data have no reason to fail: an error there would make the comparison of
+	// results vacuous (it did, for a while: the reference store refused the leaves the module text adds to the model)
+	for i, w := range c.Workers {
+		for j, op := range w {
+			if (op.Kind == "json" || op.Kind == "xml" || op.Kind == "json-node" || op.Kind == "schema") && j < len(want[i]) && strings.HasPrefix(want[i][j], "ERR:reference store") {
+				o.Failf("harness|op-error", "worker %d operation %d (%s) run alone: %s", i, j, op.Kind, want[i][j])
+				return
+			}
+		}
+	}
 	rep := c.Repeat
 	if rep < 1 {
 		rep = 1
@@ -279,6 +317,9 @@ func c20Run(c c20Case, o *hx.Obs) {
 		}
 		close(start)
 		wg.Wait()
+		if foreign(got, "run concurrently") {
+			return
+		}
 		for i := range c.Workers {
 			if panics[i] != "" {
 				o.Failf("divergence|panic", "worker %d panicked when run concurrently: %s", i, panics[i])
@@ -327,7 +368,7 @@ func c20Gen(t *rapid.T) c20Case {
 		var ops []c20Op
 		n := rapid.IntRange(1, 5).Draw(t, "nops")
 		for j := 0; j < n; j++ {
-			kind := rapid.SampledFrom([]string{"load", "export", "upsert", "find", "json", "json-node", "xml", "constrain", "setvalue", "delete", "load", "constrain", "schema", "scribble"}).Draw(t, "kind")
+			kind := rapid.SampledFrom([]string{"load", "export", "upsert", "find", "json", "json-node", "xml", "constrain", "setvalue", "delete", "load", "constrain", "schema", "scribble", "json-broken-stream"}).Draw(t, "kind")
 			op := c20Op{Kind: kind}
 			switch kind {
 			case "upsert":
@@ -338,6 +379,8 @@ func c20Gen(t *rapid.T) c20Case {
 				op.Arg = rapid.SampledFrom(c20Queries).Draw(t, "query")
 			case "setvalue":
 				op.Arg = fmt.Sprint(rapid.IntRange(-5, 5).Draw(t, "val"))
+			case "json-broken-stream":
+				op.Arg = fmt.Sprint(rapid.SampledFrom([]int{0, 10, 4000, 4096, 4100, 5000, 6000}).Draw(t, "broken-at"))
 			case "delete":
 				op.Arg = rapid.SampledFrom([]string{"c", "l=a", "l=b", "l", "used", "deep/deepc", "dl=a", "deep"}).Draw(t, "delpath")
 			}
